@@ -441,6 +441,19 @@ mutant("c10-cumsum-batch-rule-none-uses-last-axis", "C10", "jax2onnx/plugins/jax
 mutant("c10-logsumexp-batch-rule-vmaps-wrong-axis", "C10", "jax2onnx/plugins/jax/nn/logsumexp.py", "    operand = batching.bdim_at_front(operand, bdim, axis_size)\n    axis_arg", "    axis_arg", expect="R-C10e")
 mutant("c10-unstack-batch-rule-reports-wrong-dims", "C10", "jax2onnx/plugins/jax/numpy/unstack.py", "    return outs, tuple(0 for _ in outs)", "    return outs, tuple(1 for _ in outs)", expect="R-C10e")
 mutant("c10-diagonal-batch-rule-skips-front-move", "C10", "jax2onnx/plugins/jax/numpy/diagonal.py", "    x_front = batching.bdim_at_front(x, int(bdim), batch_size)", "    x_front = x", expect="R-C10e")
+mutant("c10-layer-norm-batch-rule-leaves-batch-axis", "C10", "jax2onnx/plugins/equinox/eqx/nn/layer_norm.py", "    if x_bdim is not None and x_bdim != 0:\n        x = jnp.moveaxis(x, x_bdim, 0)\n        x_bdim = 0\n", "", expect="R-C10")
+mutant("c10-linear-batch-rule-leaves-batch-axis", "C10", "jax2onnx/plugins/equinox/eqx/nn/linear.py", "    if x_bdim is not None and x_bdim != 0:\n        x = jnp.moveaxis(x, x_bdim, 0)\n        x_bdim = 0\n", "", expect="R-C10")
+mutant("c10-pool-batch-rule-reports-moved-axis-at-old-place", "C10", "jax2onnx/plugins/equinox/eqx/nn/pool.py", "    if x_bdim != 0:\n        x = jnp.moveaxis(x, x_bdim, 0)\n    out = PoolPlugin._PRIM.bind(\n        x,\n        op=op,\n        kernel_size=kernel_size,\n        strides=strides,\n        padding=padding,\n    )\n    return out, 0", "    if x_bdim != 0:\n        x = jnp.moveaxis(x, x_bdim, 0)\n    out = PoolPlugin._PRIM.bind(\n        x,\n        op=op,\n        kernel_size=kernel_size,\n        strides=strides,\n        padding=padding,\n    )\n    return out, x_bdim", expect="R-C10e")
+mutant("c10-conv-batch-rule-forgets-to-move-back", "C10", "jax2onnx/plugins/equinox/eqx/nn/conv.py", "    if x_bdim is not None and x_bdim != 0:\n        out = jnp.moveaxis(out, 0, x_bdim)\n", "", expect="R-C10e")
+mutant("c10-dot-batch-rule-generic-broadcast", "C10", "jax2onnx/plugins/jax/numpy/dot.py", "    out = jax.vmap(lambda a, b: _dot_impl(a, b, **params), in_axes=tuple(dims))(*args)\n    return out, 0\n", "    from jax2onnx.plugins.jax._batching_utils import broadcast_batcher_compat\n    return broadcast_batcher_compat(JnpDotPlugin._PRIM, args, dims, **params)\n", expect="R-C10f")
+mutant("c10-matmul-batch-rule-always-generic", "C10", "jax2onnx/plugins/jax/numpy/matmul.py", "    if all(\n        (d is None or d == 0) and np.ndim(x) - (0 if d is None else 1) >= 2\n        for x, d in zip(args, dims)\n    ):\n        return broadcast_batcher_compat", "    if True:\n        return broadcast_batcher_compat", expect="R-C10f")
+mutant("c10-standardize-axis-not-shifted", "C10", "jax2onnx/plugins/jax/nn/standardize.py", "    shifted = tuple((int(a) % example_rank if example_rank else 0) + 1 for a in example_axes)", "    shifted = tuple(int(a) for a in example_axes)", expect="R-C10e")
+mutant("c10-softmax-registered-with-generic-elementwise-batcher", "C10", "jax2onnx/plugins/jax/nn/softmax.py", "batching.primitive_batchers[SoftmaxPlugin._PRIM] = _softmax_batch_rule\n", "from jax2onnx.plugins.jax.nn._builder_utils import register_unary_elementwise_batch_rule\nregister_unary_elementwise_batch_rule(SoftmaxPlugin._PRIM)\n", expect="R-C10f")
+benign("c10-benign-linear-batch-rule-front-via-helper", "C10", "jax2onnx/plugins/equinox/eqx/nn/linear.py", "    if x_bdim is not None and x_bdim != 0:\n        x = jnp.moveaxis(x, x_bdim, 0)\n        x_bdim = 0\n", "    if x_bdim is not None:\n        x = jnp.moveaxis(x, x_bdim, 0)\n        x_bdim = 0\n")
+mutant("c10-broadcast-batcher-appends-missing-axes", "C10", "jax2onnx/plugins/jax/_batching_utils.py", "    return lax.expand_dims(x, tuple(range(1, 1 + ndim - np.ndim(x))))", "    return lax.expand_dims(x, tuple(range(np.ndim(x), ndim)))", expect="R-C10e")
+mutant("c10-broadcast-batcher-direct-bind-ignores-dim-mismatch", "C10", "jax2onnx/plugins/jax/_batching_utils.py", "        definitely_equal_shape(shape, x.shape) and d == dim\n", "        definitely_equal_shape(shape, x.shape)\n", expect="R-C10e")
+mutant("c10-broadcast-batcher-returns-wrong-dim", "C10", "jax2onnx/plugins/jax/_batching_utils.py", "    return (out, (0,) * len(out)) if prim.multiple_results else (out, 0)", "    return (out, (0,) * len(out)) if prim.multiple_results else (out, dim)", expect="R-C10e")
+benign("c10-benign-broadcast-batcher-expand-dims-list", "C10", "jax2onnx/plugins/jax/_batching_utils.py", "    return lax.expand_dims(x, tuple(range(1, 1 + ndim - np.ndim(x))))", "    missing = ndim - np.ndim(x)\n    return lax.expand_dims(x, tuple(range(1, missing + 1)))")
 benign("c10-benign-glu-batch-rule-rank-via-shape", "C10", "jax2onnx/plugins/jax/nn/glu.py", "    slice_rank = x_front.ndim - 1", "    slice_rank = len(x_front.shape) - 1")
 benign("c10-benign-sort-batch-rule-explicit-canonicalisation", "C10", "jax2onnx/plugins/jax/numpy/sort.py", "        axis_norm = axis_int % slice_rank\n", "        axis_norm = axis_int if axis_int >= 0 else axis_int + slice_rank\n")
 benign("c10-benign-one-hot-batch-rule-unconditional-move", "C10", "jax2onnx/plugins/jax/nn/one_hot.py", "    if bd != 0:\n        x = jnp.moveaxis(x, bd, 0)\n", "    x = jnp.moveaxis(x, bd, 0)\n")
